@@ -159,8 +159,12 @@ pub fn check_sinks(prop: &str, sc: &Scenario, rr: &RunResult, reference: &RefRes
 
 pub fn c01(sc: &Scenario, rr: &RunResult) -> Vec<Violation> {
     if rr.outcome.verdict != Verdict::Completed {
-        // a job that does not terminate delivers nothing: that is C04's verdict, not C01's
-        return vec![];
+        // a job that does not terminate delivers nothing to its sinks; keep the termination
+        // classes of C04 so that the same known findings apply
+        return c04(sc, rr)
+            .into_iter()
+            .map(|v| viol("C01", &format!("no-result-{}", v.class.trim_start_matches("C04/")), v.msg))
+            .collect();
     }
     let reference = Interp::run(sc);
     check_sinks("C01", sc, rr, &reference, false)
@@ -423,6 +427,8 @@ pub fn check(prop: &str, sc: &Scenario, rr: &RunResult) -> Vec<Violation> {
         "C02" => c02(sc, rr),
         "C04" => c04(sc, rr),
         "C05" => c05(sc, rr),
+        "C10" => c10(sc, rr),
+        "C11" => c11(sc, rr),
         "C06" => crate::oracle2::c06(sc, rr),
         "C12" => crate::oracle2::c12(sc, rr),
         "C13" => crate::oracle2::c13(sc, rr),
@@ -439,8 +445,8 @@ pub fn check(prop: &str, sc: &Scenario, rr: &RunResult) -> Vec<Violation> {
 
 /// data elements (id, key, v) seen at a probe, split into iterations by FlushAndRestart, merged
 /// over all replicas
-pub fn probe_iterations(rec: &Recorder, pid: u32) -> Vec<Vec<(u64, u16, i64)>> {
-    let mut iters: Vec<Vec<(u64, u16, i64)>> = Vec::new();
+pub fn probe_iterations(rec: &Recorder, pid: u32) -> Vec<Vec<(u64, u16, i64, i64)>> {
+    let mut iters: Vec<Vec<(u64, u16, i64, i64)>> = Vec::new();
     for ((p, _c), hist) in &rec.probes {
         if *p != pid {
             continue;
@@ -452,7 +458,8 @@ pub fn probe_iterations(rec: &Recorder, pid: u32) -> Vec<Vec<(u64, u16, i64)>> {
                     while iters.len() <= i {
                         iters.push(vec![]);
                     }
-                    iters[i].push((r.id, r.key, r.v));
+                    // the stream element's timestamp is compared only where there is one
+                    iters[i].push((r.id, r.key, r.v, if r.kind == K_TS { r.ts } else { i64::MIN }));
                 }
                 K_FAR => {
                     while iters.len() <= i {
@@ -484,6 +491,9 @@ pub fn probe_expectations(prop: &str, sc: &Scenario, rr: &RunResult, reference: 
         let Some(exp) = reference.expect.get(&(m.path.clone(), m.out)) else {
             continue;
         };
+        if reference.unpredictable_loops.iter().any(|l| m.path.starts_with(l)) {
+            continue;
+        }
         let got = probe_iterations(&rr.rec, m.id);
         // trailing empty iterations carry no information when the reference has none either
         let n = exp.len().max(got.len());
@@ -493,8 +503,18 @@ pub fn probe_expectations(prop: &str, sc: &Scenario, rr: &RunResult, reference: 
             match e {
                 Some(None) => continue,
                 Some(Some(ev)) => {
-                    let mut want: Vec<(u64, u16, i64)> = ev.iter().map(|e| (e.id, e.key, e.v)).collect();
+                    // elements observed without a timestamp are compared without it
+                    let timestamped = g.iter().any(|x| x.3 != i64::MIN);
+                    let mut want: Vec<(u64, u16, i64, i64)> = ev
+                        .iter()
+                        .map(|e| (e.id, e.key, e.v, if timestamped { e.ts } else { i64::MIN }))
+                        .collect();
                     want.sort();
+                    let g: Vec<(u64, u16, i64, i64)> = if timestamped {
+                        g
+                    } else {
+                        g.into_iter().map(|x| (x.0, x.1, x.2, i64::MIN)).collect()
+                    };
                     if want != g {
                         let gs: BTreeSet<_> = g.iter().collect();
                         let ws: BTreeSet<_> = want.iter().collect();
@@ -512,7 +532,8 @@ pub fn probe_expectations(prop: &str, sc: &Scenario, rr: &RunResult, reference: 
                     }
                 }
                 None => {
-                    if !g.is_empty() || exp.iter().all(|x| x.is_some()) && i < got.len() && got[i..].iter().any(|x| !x.is_empty()) {
+                    // only meaningful when the reference could predict every iteration here
+                    if exp.iter().all(|x| x.is_some()) && !g.is_empty() {
                         out.push(viol(
                             prop,
                             "extra-iteration",
@@ -529,6 +550,128 @@ pub fn probe_expectations(prop: &str, sc: &Scenario, rr: &RunResult, reference: 
                 "iteration-count",
                 format!("probe {} (step path {:?}): {} iterations observed, reference has {}", m.id, m.path, got.len(), exp.len()),
             ));
+        }
+    }
+    out
+}
+
+
+// ------------------------------------------------------------------------------------------
+// C10 loops, C11 side inputs
+// ------------------------------------------------------------------------------------------
+
+fn termination_as(prop: &str, sc: &Scenario, rr: &RunResult) -> Vec<Violation> {
+    if rr.outcome.verdict == Verdict::Completed && !rr.rec.hosts.iter().any(|h| h.panicked.is_some()) {
+        return vec![];
+    }
+    c04(sc, rr)
+        .into_iter()
+        .map(|v| viol(prop, &format!("no-termination-{}", v.class.trim_start_matches("C04/")), v.msg))
+        .collect()
+}
+
+pub fn c10(sc: &Scenario, rr: &RunResult) -> Vec<Violation> {
+    let mut out = termination_as("C10", sc, rr);
+    if !out.is_empty() {
+        return out;
+    }
+    let reference = Interp::run(sc);
+    out.extend(check_sinks("C10", sc, rr, &reference, false));
+    out.extend(probe_expectations("C10", sc, rr, &reference));
+    // every read of the loop state inside the body: exactly the state produced by the previous round
+    for o in &rr.rec.state_obs {
+        if reference.unpredictable_loops.contains(&o.loop_path) {
+            continue;
+        }
+        let Some(states) = reference.loop_states_by_path.get(&o.loop_path) else { continue };
+        let want = states.get(o.true_round as usize);
+        match want {
+            Some((r, acc)) => {
+                if o.seen_round != *r || o.seen_acc != *acc {
+                    let class = if o.seen_round < *r { "stale-state" } else if o.seen_round > *r { "state-from-the-future" } else { "wrong-state" };
+                    out.push(viol(
+                        "C10",
+                        class,
+                        format!(
+                            "loop at step {:?}: replica {:?} processed an element of round {} while reading state (round {}, acc {}); the state produced by round {} is (round {}, acc {})",
+                            o.loop_path, o.coord, o.true_round, o.seen_round, o.seen_acc, o.true_round as i64 - 1, r, acc
+                        ),
+                    ));
+                    break;
+                }
+            }
+            None => {
+                out.push(viol(
+                    "C10",
+                    "extra-round",
+                    format!("loop at step {:?}: replica {:?} executed round {} but the loop must stop after {} rounds", o.loop_path, o.coord, o.true_round, states.len()),
+                ));
+                break;
+            }
+        }
+    }
+    out
+}
+
+pub fn c11(sc: &Scenario, rr: &RunResult) -> Vec<Violation> {
+    let mut out = termination_as("C11", sc, rr);
+    if !out.is_empty() {
+        return out;
+    }
+    let reference = Interp::run(sc);
+    out.extend(check_sinks("C11", sc, rr, &reference, false));
+    out.extend(probe_expectations("C11", sc, rr, &reference));
+    // the outside stream's end is propagated once and the protocol holds downstream of the merge
+    for v in c05(sc, rr) {
+        if v.class.starts_with("C05/grammar") {
+            out.push(viol("C11", &v.class.replace("C05/", "protocol-"), v.msg));
+        }
+    }
+    // weak zips (order not determined): pair count and one-to-one use per iteration
+    out.extend(weak_zip_checks("C11", sc, rr));
+    out
+}
+
+/// zip steps whose pairing the reference cannot predict: exactly min(|a|,|b|) pairs per
+/// iteration and no element used twice
+pub fn weak_zip_checks(prop: &str, sc: &Scenario, rr: &RunResult) -> Vec<Violation> {
+    let mut out = vec![];
+    fn visit(steps: &[Step], prefix: &[usize], in_loop: bool, f: &mut dyn FnMut(&[usize], usize, usize)) {
+        for (si, st) in steps.iter().enumerate() {
+            let mut p = prefix.to_vec();
+            p.push(si);
+            match st {
+                Step::Bin(a, b, BinOp::Zip) => f(&p, *a, *b),
+                Step::Loop(_, l) => {
+                    for (bi, bst) in l.body.iter().enumerate() {
+                        let mut bp = p.clone();
+                        bp.push(10_000 + bi);
+                        visit(std::slice::from_ref(bst), &bp, true, f);
+                    }
+                }
+                _ => {}
+            }
+        }
+        let _ = in_loop;
+    }
+    let mut zips: Vec<Vec<usize>> = vec![];
+    visit(&sc.steps, &[], false, &mut |p, _a, _b| zips.push(p.to_vec()));
+    for path in zips {
+        let Some(qm) = rr.meta.iter().find(|m| m.path == path && m.pos == "out") else { continue };
+        let iters = probe_iterations(&rr.rec, qm.id);
+        for (i, it) in iters.iter().enumerate() {
+            let mut left = BTreeSet::new();
+            let mut right = BTreeSet::new();
+            for (id, _k, v, _) in it {
+                if !left.insert(*id) {
+                    out.push(viol(prop, "zip-element-used-twice", format!("zip at step {:?} iteration {}: left element {:x} appears in two pairs", path, i, id)));
+                    return out;
+                }
+                if !right.insert(*v) {
+                    out.push(viol(prop, "zip-element-used-twice", format!("zip at step {:?} iteration {}: right element {:x} appears in two pairs", path, i, v)));
+                    return out;
+                }
+            }
         }
     }
     out
